@@ -80,11 +80,16 @@ class HandoverClient(object):
 
     def recv_records(self, timeout=None):
         """Receive a handover select message from the remote server."""
-        octets = self.recv_octets(timeout)
-        records = list(ndef.message_decoder(octets, 'relax')) if octets else []
+        octets = self.recv_octets(timeout) or b''
+        try:
+            records = list(ndef.message_decoder(octets, 'relax'))
+        except (ndef.DecodeError, ValueError) as error:
+            # ValueError is raised for an invalid record type
+            log.error(repr(error))
+            records = []
         if records and records[0].type == "urn:nfc:wkt:Hs":
             log.debug("received '{0}' message".format(records[0].type))
-            return list(ndef.message_decoder(octets, 'relax'))
+            return records
         else:
             log.error("received invalid message %s", binascii.hexlify(octets))
             return []
@@ -102,7 +107,8 @@ class HandoverClient(object):
                 list(ndef.message_decoder(octets, 'strict', {}))
                 log.debug("<<< %s", binascii.hexlify(octets).decode())
                 return bytes(octets)
-            except ndef.DecodeError:
+            except (ndef.DecodeError, ValueError):
+                # ValueError is raised for an invalid record type
                 log.debug("message is incomplete (%d byte)", len(octets))
                 if timeout:
                     timeout -= time.time() - started
